@@ -5,6 +5,24 @@ NOTES = ("Every check: TLC model-checks the module's design on small constants, 
          "tree (rebuilt on every run with -tags verif). Exit 2 = infrastructure problem, never a verdict.")
 NOT_APPLICABLE = {}
 CHECKS = {
+    "C10": {
+        "text": "FzfFields.tla (Tokenize for AWK / literal / a menu of regex delimiters, ParseRange, Select/Transform, --nth scopes with "
+                "offsets in full-line characters, --with-nth / --accept-nth renditions incl. templates and StripLastDelimiter, {N} and "
+                "{q:N} placeholders) is model-checked for every line <=6 over {a b , : space TAB e~} x 9 delimiters (partition, "
+                "offsets, independent cut characterisation) and, in the exporting runs, for selection = documented fields for all A,B "
+                "in -5..5, --nth soundness/completeness and rendition invariants. TLC-exported cases (all lines <=4 x 9 delimiters x "
+                "600 nth/kind/term combos x 10 specs x 8 placeholders; shaped lines with 0..8 fields x 155 expressions; all expression "
+                "strings <=6) are replayed in-package into Tokenize/ParseRange/splitNth/Transform/BuildPattern.MatchItem/"
+                "nthTransformer (real option parser)/Item.acceptNth/replacePlaceholder and end-to-end through the real binary "
+                "(fzf -f with --nth/--delimiter/--with-nth, default and +s path; match sets = TLC's per-line results transposed). "
+                "Offsets of exact/fuzzy matches and 40k random longer inputs (multi-byte, wide) are judged by Judge_Fields.",
+        "design_ref": "DESIGN.md §6 C10",
+        "note": "Delimiters limited to the menu (no empty-matching regexes); terms case-sensitive, no blanks (term semantics is C01/C02). "
+                "--accept-nth bound at Item.acceptNth, not via tty. CODE-DERIVED corners: literal vs regex trailing empty field, "
+                "postProcessOptions dropping an all-fields --nth, -A..B rejected, last-scope-only delimiter stripping. "
+                "Trusted: TLC, harness mapping of menu entries to CLI strings (checked against delimiterRegexp).",
+        "technique": "TLA+ spec + TLC exhaustive MC; TLC-exported cases replayed on real code and real binary; TLC-judged random records",
+    },
     "C17": {
         "text": "FzfOptions.tla models option parsing as a word-level fold Consume over the sources options-file -> $FZF_DEFAULT_OPTS "
                 "-> argv (flags with --no- twins, required/optional values, =value, short attached forms, cumulative --bind/"
